@@ -251,6 +251,8 @@ func (w *worker) exec(c *mc.Ctx, cs Case) {
 	}
 	acceptRange := cs.Opt&1 != 0 || cs.Route == "file"
 	for i, m := range ms {
+		ce, _ := m.Get("Content-Encoding")
+		c.Distinct("outcomes", fmt.Sprintf("%d|body=%d|enc=%s", m.Status, len(m.Body), ce))
 		r := cs.Reqs[i]
 		if bytes.Contains(m.Body, []byte(canary)) {
 			fail(i, "outside-root", "the response carries the contents of a file outside the root")
